@@ -1066,6 +1066,16 @@ pub(crate) fn derive_struct_diff_struct(struct_: &Struct) -> TokenStream {
 
     let const_start = "#[allow(non_camel_case_types)]\nconst _: () = {";
 
+    // without an unskipped field the borrowed diff enum has no variant that could use its lifetime, and an unused
+    // lifetime parameter is an error: it is declared only when there is a field to borrow from
+    let target_lifetime = || {
+        struct_
+            .fields
+            .iter()
+            .any(|field| !attrs_skip(&field.attributes))
+            .then(|| String::from("'__diff_target"))
+    };
+
     format!(
         "{non_exposed_const_start}
             {type_aliases}
@@ -1162,7 +1172,7 @@ pub(crate) fn derive_struct_diff_struct(struct_: &Struct) -> TokenStream {
         ),
         ref_enum_def_generics = format!(
             "<{}>",
-            std::iter::once(String::from("'__diff_target")).chain(
+            target_lifetime().into_iter().chain(
                 used_generics
                     .iter()
                     .filter(|gen| !matches!(gen, Generic::WhereBounded { .. }))
@@ -1193,7 +1203,7 @@ pub(crate) fn derive_struct_diff_struct(struct_: &Struct) -> TokenStream {
                 ))
                 .filter(|g| Generic::has_where_bounds(g, true, true))
                 .map(|gen| Generic::full_with_const(gen, get_used_generic_bounds_ref(), &["\'__diff_target"], true))
-                .chain(std::iter::once(String::from("Self: \'__diff_target")))
+                .chain(target_lifetime().map(|lifetime| format!("Self: {}", lifetime)))
                 .collect::<Vec<_>>()
                 .join(",\n")
         ),
@@ -1271,7 +1281,7 @@ pub(crate) fn derive_struct_diff_struct(struct_: &Struct) -> TokenStream {
         ),
         ref_enum_impl_generics = format!(
             "<{}>",
-            std::iter::once(String::from("'__diff_target")).chain(
+            target_lifetime().into_iter().chain(
                 used_generics
                     .iter()
                     .filter(|gen| !matches!(gen, Generic::WhereBounded { .. }))
